@@ -256,9 +256,82 @@ def run_rt(case):
     return res
 
 
+def obs_itable(t):
+    """observation of a table that may carry an index_name: the (lazy) index is activated first"""
+    ix = t.index_name
+    return [obs_table(t)[:4], ix]
+
+
+def apply_iop(tables, cur, o):
+    k = o["op"]
+    if k == "lookup":
+        v = cur[from_json_cell(o["label"]), o["col"]]
+        return cur, cv(v.item() if hasattr(v, "item") else v)
+    if k == "row":
+        r = cur[from_json_cell(o["label"])]
+        return cur, obs_itable(r)
+    if k == "get_columns_ix":
+        r = cur.get_columns(o["columns"], with_index=o["with_index"])
+        return r, obs_itable(r)
+    r, obs = apply_op(tables, cur, o)
+    if k in ("count", "distinct"):
+        return r, (obs[0] if k == "count" and isinstance(obs, list) else obs)
+    return r, obs_itable(r)
+
+
+def run_iops(case):
+    out = []
+    try:
+        tables = [build(tb) for tb in case["tables"]]
+        cur = tables[0]
+        cur.index_name
+    except Exception as e:  # noqa: BLE001
+        return [{"exc": exc_code(e), "type": type(e).__name__, "msg": str(e)[:120]}]
+    for o in case["ops"]:
+        try:
+            cur, obs = apply_iop(tables, cur, o)
+        except Exception as e:  # noqa: BLE001
+            out.append({"exc": exc_code(e), "type": type(e).__name__, "msg": str(e)[:120]})
+            break
+        out.append(obs)
+    return out
+
+
+def run_irt(case):
+    """delimited round trip with title / legend rows and index_name"""
+    from cogent3 import load_table
+    from cogent3.util.table import Table
+
+    tb = case["table"]
+    data = {h: [from_json_cell(c) for c in col] for h, col in zip(tb["header"], tb["cols"])}
+    tmp = tempfile.mkdtemp(prefix="c20_")
+    res = {}
+    try:
+        t = Table(header=list(tb["header"]), data=data, title=case["title"], legend=case["legend"],
+                  index_name=case["index_name"])
+        t.index_name
+        fmt = "tsv" if case["sep"] == "\t" else "csv"
+        path = os.path.join(tmp, "t." + fmt)
+        t.write(path)
+        with open(path, newline="") as f:
+            res["text"] = f.read()
+        got = load_table(path, with_title=bool(case["title"]), with_legend=bool(case["legend"]),
+                         index_name=case["index_name"])
+        res["loaded"] = [got.title, got.legend, obs_itable(got)]
+    except Exception as e:  # noqa: BLE001
+        res["loaded"] = {"exc": exc_code(e), "type": type(e).__name__, "msg": str(e)[:160]}
+    finally:
+        shutil.rmtree(tmp, ignore_errors=True)
+    return res
+
+
 def run_case(case):
     if case["kind"] == "ops":
         return run_ops(case)
+    if case["kind"] == "iops":
+        return run_iops(case)
+    if case["kind"] == "irt":
+        return run_irt(case)
     return run_rt(case)
 
 
